@@ -6,7 +6,10 @@ D2(k, v, k2, v2) == DictV(<< <<StrV(k), v>>, <<StrV(k2), v2>> >>)
 
 ItemP  == [ctype |-> TRUE] @@ SchemaF(<< <<"u", StringF>>, <<"pw", With(SecureF, [method |-> "xor"])>> >>)   \* (a configuration TYPE: the items are instances of it)
 InnerS == SchemaF(<< <<"tok", With(SecureF, [method |-> "aes"])>>, <<"n", With(IntF, [default |-> IntV(1)])>> >>)
-VaultT == [ctype |-> TRUE, keyfile |-> "kv"] @@ SchemaF(<< <<"sec", SecureF>>, <<"inner", InnerS>> >>)
+\* (`shared` / `tname`: the harness builds ONE Schema object for both vault types and gives the two types the same
+\*  class name - an application calling make_type(schema, "Vault", key_filename=...) once per environment)
+VaultT == [ctype |-> TRUE, keyfile |-> "kv", shared |-> "vt", tname |-> "Vault"] @@ SchemaF(<< <<"sec", SecureF>>, <<"inner", InnerS>> >>)
+VaultT2 == [VaultT EXCEPT !.keyfile = "kv2"]
 SubP   == SchemaF(<< <<"tok", With(SecureF, [method |-> "aes"])>>, <<"port", With(IntF, [default |-> IntV(80)])>> >>)
 SchemaP == SchemaF(<<
     \* (bound to a variable that is set to the EMPTY string: no binding, documents load normally)
@@ -24,14 +27,15 @@ SchemaP == SchemaF(<<
     <<"dl", With(ListF(IntF), [default |-> ListV(<<IntV(1), IntV(2)>>)])>>,
     <<"sub", SubP>>,
     <<"vault", VaultT>>,
+    <<"vault2", VaultT2>>,
     <<"items", ListF(ItemP)>>,
     \* a whole list of configurations marked sensitive: masked as one value, not item by item
     <<"sitems", With(ListF(ItemP), [sensitive |-> TRUE])>>,
     <<"virt", VirtualF>>,
     <<"svirt", VirtualF @@ [sensitive |-> TRUE]>> >>)
 
-MCKeyNames == {"nl", "sitems", "dflt", "dl", "name", "pw", "hash", "blob", "bl", "sl", "dd", "api", "sub", "tok", "port", "vault", "sec", "inner", "n", "items", "u", "virt", "svirt"}
-MCKeyChars == [k \in MCKeyNames |-> CASE k = "nl" -> <<"n", "l">> [] k = "sitems" -> <<"s", "i", "t", "e", "m", "s">> [] k = "dflt" -> <<"d", "f", "l", "t">> [] k = "dl" -> <<"d", "l">> [] k = "name" -> <<"n", "a", "m", "e">> [] k = "pw" -> <<"p", "w">> [] k = "hash" -> <<"h", "a", "s", "h">> [] k = "blob" -> <<"b", "l", "o", "b">> [] k = "bl" -> <<"b", "l">> [] k = "sl" -> <<"s", "l">> [] k = "dd" -> <<"d", "d">> [] k = "api" -> <<"a", "p", "i">> [] k = "sub" -> <<"s", "u", "b">> [] k = "tok" -> <<"t", "o", "k">> [] k = "port" -> <<"p", "o", "r", "t">> [] k = "vault" -> <<"v", "a", "u", "l", "t">> [] k = "sec" -> <<"s", "e", "c">> [] k = "inner" -> <<"i", "n", "n", "e", "r">> [] k = "n" -> <<"n">> [] k = "items" -> <<"i", "t", "e", "m", "s">> [] k = "u" -> <<"u">> [] k = "virt" -> <<"v", "i", "r", "t">> [] k = "svirt" -> <<"s", "v", "i", "r", "t">>]
+MCKeyNames == {"vault2", "nl", "sitems", "dflt", "dl", "name", "pw", "hash", "blob", "bl", "sl", "dd", "api", "sub", "tok", "port", "vault", "sec", "inner", "n", "items", "u", "virt", "svirt"}
+MCKeyChars == [k \in MCKeyNames |-> CASE k = "vault2" -> <<"v", "a", "u", "l", "t", "2">> [] k = "nl" -> <<"n", "l">> [] k = "sitems" -> <<"s", "i", "t", "e", "m", "s">> [] k = "dflt" -> <<"d", "f", "l", "t">> [] k = "dl" -> <<"d", "l">> [] k = "name" -> <<"n", "a", "m", "e">> [] k = "pw" -> <<"p", "w">> [] k = "hash" -> <<"h", "a", "s", "h">> [] k = "blob" -> <<"b", "l", "o", "b">> [] k = "bl" -> <<"b", "l">> [] k = "sl" -> <<"s", "l">> [] k = "dd" -> <<"d", "d">> [] k = "api" -> <<"a", "p", "i">> [] k = "sub" -> <<"s", "u", "b">> [] k = "tok" -> <<"t", "o", "k">> [] k = "port" -> <<"p", "o", "r", "t">> [] k = "vault" -> <<"v", "a", "u", "l", "t">> [] k = "sec" -> <<"s", "e", "c">> [] k = "inner" -> <<"i", "n", "n", "e", "r">> [] k = "n" -> <<"n">> [] k = "items" -> <<"i", "t", "e", "m", "s">> [] k = "u" -> <<"u">> [] k = "virt" -> <<"v", "i", "r", "t">> [] k = "svirt" -> <<"s", "v", "i", "r", "t">>]
 MCEnviron == [x \in {<<"N", "V">>} |-> <<>>]
 
 \* a ready-made instance of the vault type (it names its own key file) with secrets already set
@@ -44,7 +48,7 @@ LongSecret == StrV(<<"0", "1", "2", "3", "4", "5", "6", "7", "8", "9", "a", "b",
 MCSetCands ==
     [pk \in {<< <<>>, "nl">>, << <<>>, "sitems">>, << <<>>, "dflt">>, << <<>>, "dl">>, << <<>>, "name">>, << <<>>, "pw">>, << <<>>, "hash">>, << <<>>, "blob">>, << <<>>, "bl">>, << <<>>, "sl">>,
              << <<>>, "dd">>, << <<>>, "api">>, << <<"sub">>, "tok">>, << <<>>, "vault">>, << <<"vault">>, "sec">>,
-             << <<"vault", "inner">>, "tok">>, << <<>>, "items">>} |->
+             << <<"vault", "inner">>, "tok">>, << <<>>, "items">>, << <<>>, "vault2">>, << <<"vault2">>, "sec">>} |->
         CASE pk[2] = "sitems" -> {ListV(<<D2(<<"u">>, StrV(<<"s", "a", "m">>), <<"p", "w">>, StrV(<<"s", "i", "t", "e", "m", "p", "w", "#", "7">>))>>)}
           [] pk[2] = "dflt"  -> {D1(<<"a">>, IntV(5)), DictV(<<>>)}
           [] pk[2] = "dl"    -> {ListV(<<>>), ListV(<<IntV(2)>>)}
@@ -66,6 +70,7 @@ MCSetCands ==
           [] pk[2] = "vault" -> {D1(<<"s", "e", "c">>, StrV(<<"v", "a", "u", "l", "t", "s", "e", "c", "#", "2">>)), [t |-> "cfgobj", c |-> VaultObj],
                                  \* a rejected map: the valid entries come first
                                  D2(<<"s", "e", "c">>, StrV(<<"r", "e", "j", "e", "c", "t", "e", "d", "#", "1">>), <<"i", "n", "n", "e", "r">>, D1(<<"n">>, StrV(<<"x">>)))}
+          [] pk[2] = "vault2" -> {D1(<<"s", "e", "c">>, StrV(<<"v", "a", "u", "l", "t", "2", "s", "e", "c", "#", "1">>))}
           [] pk[2] = "sec"   -> {StrV(<<"v", "a", "u", "l", "t", "s", "e", "c", "#", "3">>)}
           [] pk[1] = <<"vault", "inner">> -> {StrV(<<"i", "n", "n", "e", "r", "t", "o", "k", "#", "4">>)}
           [] pk[2] = "items" -> {ListV(<<D2(<<"u">>, StrV(<<"a", "l", "i", "c", "e">>), <<"p", "w">>, StrV(<<"i", "t", "e", "m", "p", "a", "s", "s", "#", "5">>))>>),
